@@ -17,6 +17,12 @@ A case is {"ops": [[kind, ...], ...]}; values are JSON null / int / str / {"f": 
   ["insert", index, k, v] ["sift", null | [k…]] ["copy", "copy"|"copyDataDict"] ["reorder", pairs] ["setData", pairs]
   ["setTruth", v] ["getTruth"] ["changeUnit", pairs, form] ["createUnit", pairs, form] ["fetchUnit", k]
   ["ctorUnit", pairs]  (Share(unit=dict(pairs)))   ["mutate", id, n]
+  ["hold", "deck"|"data"|"unit"]     the caller takes (again) a reference to that sub-object of the share
+A deck operation may carry a last element "held": it is then done through the reference to share.deck the caller
+holds (one is taken before the first operation, while the deck is empty) instead of through the share; likewise
+["setattr", k, v, "held"] assigns a field through the held share.data record (= change of one field) and
+["setunit", k, v, "held"] through the held unit record.  After every operation the identity of share.data,
+share.deck and the unit record is reported (a label per distinct object, in order of first appearance).
   ["push", v] ["pull"] ["gulp", v] ["spew"] ["setClock", i, t|null] ["attach", i|null]
 `form` says how the pairs are handed to the call; one kind, or several joined by "+" (the pairs are split evenly
 into that many positional / keyword arguments, in that order):
@@ -147,7 +153,10 @@ class CHECK(core.Check):
             "pop/popitem/setdefault/clear/insert (any index), sift/copy/copyDataDict/reorder, assignment of a whole data "
             "record, truth, the unit record (changeUnit/createUnit/fetchUnit/Share(unit=..)), values None/int/str/float/"
             "tuple and four mutable objects of the caller (2 lists, 2 dicts) that are stored in fields and on the deck "
-            "and appended to afterwards (aliasing), deck push/pull/gulp/spew (with None), stamp changes of two stores "
+            "and appended to afterwards (aliasing), deck push/pull/gulp/spew (with None) done through the share or "
+            "through a reference to share.deck the caller took earlier (first one while the deck was empty), fields and "
+            "unit fields also assigned through held references to share.data / the unit record, the identity of "
+            "share.data, share.deck and the unit record reported after every operation, stamp changes of two stores "
             "(including None) and attach/detach; field names from a small pool of public names, plus (in ~25% of "
             "the cases) rejected names: leading underscore, digit first, '', spaces, punctuation, trailing newline, "
             "and (~10%) class attribute names of Data; non-trivial = a stamping operation with a store attached, "
@@ -174,7 +183,8 @@ class CHECK(core.Check):
                   "C19_data_assignment_stamps), sift/copy are reads of items() (C19_sift_copy_read), values are stored "
                   "by reference, never copied (C19_values_are_aliased), truth/unit/deck traffic never touch fields or "
                   "stamp and only deck operations touch the deck (C19_frames), the unit record obeys the name rule "
-                  "(C19_unit_names_public), fields as an "
+                  "(C19_unit_names_public), the deck and the unit record are never rebound and the data record only by "
+                  "assigning a whole record (C19_subobjects_keep_identity), fields as an "
                   "insertion-ordered map (C19_fields_ordered_map_* incl. positional insert, invariant C19_sync_invariant: items() never "
                   "raises), every name the share holds or shows is a public identifier for EVERY history, class attribute "
                   "names of Data included (C19_field_names_public, C19_keys_public; C19_legacy_sift documents the "
@@ -227,6 +237,8 @@ class CHECK(core.Check):
         return [[self._key(rng, mode), self._val(rng)] for _ in range(n)]
 
     def generate(self, rng, n, tier):
+        def via(rng):
+            return ["held"] if rng.random() < 0.4 else []
         for _ in range(n):
             r = rng.random()
             mode = "attr" if r < 0.10 else "bad" if r < 0.35 else "good"
@@ -241,6 +253,13 @@ class CHECK(core.Check):
                 k = self._key(rng, mode)
                 v = self._val(rng)
                 form = self._form(rng)
+                r9 = rng.random()
+                if r9 < 0.03:
+                    ops.append(["hold", rng.choice(["deck", "deck", "data", "unit"])]); continue
+                if r9 < 0.06:
+                    ops.append(["setattr", k, v, "held"]); continue
+                if r9 < 0.075:
+                    ops.append(["setunit", k, v, "held"]); continue
                 if rng.random() < 0.14:        # sift / copy / reorder / data record / truth / unit record
                     ops.append(rng.choice([["sift", None], ["sift", [self._key(rng, mode) for _ in range(rng.randrange(4))]],
                                            ["copy", rng.choice(["copy", "copyDataDict"])],
@@ -268,10 +287,11 @@ class CHECK(core.Check):
                 elif r < 0.73: ops.append(["setdefault", k, v])
                 elif r < 0.735: ops.append(["clear"])
                 elif r < 0.76: ops.append(["insert", rng.choice([0, 0, 1, 2, -1, -2, -9, 9]), k, v])
-                elif r < 0.80: ops.append(["push", None if (push_none and rng.random() < 0.4) else (0 if v is None else v)])
-                elif r < 0.82: ops.append(["pull"])
-                elif r < 0.87: ops.append(["gulp", v])
-                elif r < 0.92: ops.append(["spew"])
+                elif r < 0.80:
+                    ops.append(["push", None if (push_none and rng.random() < 0.4) else (0 if v is None else v)] + via(rng))
+                elif r < 0.82: ops.append(["pull"] + via(rng))
+                elif r < 0.87: ops.append(["gulp", v] + via(rng))
+                elif r < 0.92: ops.append(["spew"] + via(rng))
                 elif r < 0.94: ops.append(["mutate", rng.randrange(4), rng.randrange(100)])
                 elif r < 0.97: ops.append(["setClock", rng.randrange(2), rng.choice([None, rng.randrange(0, 200)])])
                 else: ops.append(["attach", rng.choice([None, 0, 1])])
@@ -283,7 +303,7 @@ class CHECK(core.Check):
         alpha = [["setValue", 5], ["update", [["b", 2]], "list"], ["change", [["a", 7]], "list"],
                  ["create", [["a", 9], ["c", 3]], "list"], ["create", [["a", 9]], "kw"], ["delItem", "a"],
                  ["setItem", "_x", 1], ["setClock", 0, 9], ["attach", None], ["stampNow"],
-                 ["gulp", None], ["gulp", 4], ["spew"], ["pull"]]
+                 ["gulp", None], ["gulp", 4], ["spew"], ["pull"], ["gulp", 6, "held"], ["spew", "held"]]
         pre = [["setClock", 0, 3], ["attach", 0], ["change", [["a", 1]], "list"]]
         import itertools
         L = 3 if tier == "thorough" else 2
@@ -341,9 +361,19 @@ class CHECK(core.Check):
             un = "-" if sh.unit is None else self._pairs_out(sh.unit.__dict__.items())
         except Exception as ex:
             un = "ERR " + type(ex).__name__
-        return "%s | %s | %s | %s | %d | %s | %s" % (self._stamp(sh.stamp), ks, its,
-                                                     ",".join(self._show_val(v) for v in dk) if dk else ".", len(sh),
-                                                     self._show_val(sh.truth), un)
+        def label(kind, o):
+            if o is None:
+                return "-"
+            seen = self._ids[kind]
+            for i, x in enumerate(seen):
+                if x is o:
+                    return "%d" % i
+            seen.append(o)
+            return "%d" % (len(seen) - 1)
+        ids = "%s,%s,%s" % (label("data", sh.data), label("deck", sh.deck), label("unit", sh.unit))
+        return "%s | %s | %s | %s | %d | %s | %s | %s" % (self._stamp(sh.stamp), ks, its,
+                                                          ",".join(self._show_val(v) for v in dk) if dk else ".", len(sh),
+                                                          self._show_val(sh.truth), un, ids)
 
     def impl(self, case):
         core.import_ioflo()
@@ -353,6 +383,9 @@ class CHECK(core.Check):
         sh = storing.Share(name="sh")
         self._pool = [[], [], {}, {}]          # the caller's mutable objects
         py = self._to_py
+        self._ids = {"data": [], "deck": [], "unit": []}     # distinct objects seen, in order
+        held = {"deck": sh.deck, "data": sh.data, "unit": None}   # references the caller holds (deck: taken empty)
+        self._observe(sh)                      # the initial sub-objects get labels 0
 
         def parts_py(op):
             return [(kind, [(kk, py(vv)) for kk, vv in seg]) for kind, seg in split_forms(op)]
@@ -412,6 +445,7 @@ class CHECK(core.Check):
                     sh.reorder(odict([(kk, py(vv)) for kk, vv in op[1]])); r = "unit"
                 elif k == "setData":
                     sh.data = storing.Data([(kk, py(vv)) for kk, vv in op[1]]); r = "unit"
+                    held["data"] = sh.data      # the documented rebinding: the caller takes the new record
                 elif k == "setTruth":
                     sh.truth = py(op[1]); r = "unit"
                 elif k == "getTruth":
@@ -437,14 +471,27 @@ class CHECK(core.Check):
                     else:
                         o.append(op[2])
                     r = "unit"
+                elif k == "hold":
+                    held[op[1]] = sh.deck if op[1] == "deck" else sh.data if op[1] == "data" else sh.unit
+                    r = "unit"
+                elif k == "setattr":        # a field through the held data record
+                    setattr(held["data"], op[1], py(op[2])); r = "unit"
+                elif k == "setunit":        # a unit field through the held unit record
+                    if held["unit"] is None:
+                        held["unit"] = sh.unit
+                    if held["unit"] is None:
+                        sh.changeUnit([(op[1], py(op[2]))])
+                    else:
+                        setattr(held["unit"], op[1], py(op[2]))
+                    r = "unit"
                 elif k == "push":
-                    sh.push(py(op[1])); r = "unit"
+                    (held["deck"] if op[-1] == "held" and len(op) > 2 else sh).push(py(op[1])); r = "unit"
                 elif k == "pull":
-                    r = "v:" + self._show_val(sh.pull())
+                    r = "v:" + self._show_val((held["deck"] if op[-1] == "held" else sh).pull())
                 elif k == "gulp":
-                    sh.deck.gulp(py(op[1])); r = "unit"
+                    (held["deck"] if op[-1] == "held" and len(op) > 2 else sh.deck).gulp(py(op[1])); r = "unit"
                 elif k == "spew":
-                    r = "v:" + self._show_val(sh.deck.spew())
+                    r = "v:" + self._show_val((held["deck"] if op[-1] == "held" else sh.deck).spew())
                 elif k == "setClock":
                     st = stores[0 if op[1] == 0 else 1]
                     if op[2] is None:
@@ -501,7 +548,13 @@ class CHECK(core.Check):
         reqs = ["reset"]
         for op in case["ops"]:
             k = op[0]
-            if k in ("setValue", "push", "gulp"):
+            if k == "hold":
+                reqs.append("hold " + op[1])           # taking a reference is not an operation of the share
+            elif k == "setattr":
+                reqs.append("change %s" % self._penc([(op[1], op[2])]))
+            elif k == "setunit":
+                reqs.append("changeUnit %s" % self._penc([(op[1], op[2])]))
+            elif k in ("setValue", "push", "gulp"):
                 reqs.append("%s %s" % (k, self._venc(op[1])))
             elif k in ("update", "change", "create"):
                 reqs.append("%s %s" % (k, self._penc(eff_pairs(op))))
@@ -550,9 +603,17 @@ class CHECK(core.Check):
         None that was pushed) were met.
         After a failure of a recorded kind the reference carries on, so that anything else in the same
         history is still found."""
-        ops = case["ops"]
+        ops = []
+        for op in case["ops"]:             # operations through a held reference are the same operations
+            if op[0] == "setattr":
+                ops.append(["change", [[op[1], op[2]]], "list"])
+            elif op[0] == "setunit":
+                ops.append(["changeUnit", [[op[1], op[2]]], "list"])
+            else:
+                ops.append(op)
         if len(out) != len(ops):
             return "other", "harness: %d ops, %d outputs: %s" % (len(ops), len(out), out[:1])
+        n_records = 0                      # whole data records assigned so far
         F = collections.OrderedDict()      # fields
         stamp = None
         clocks = [None, None]
@@ -574,9 +635,9 @@ class CHECK(core.Check):
 
         for i, (op, line) in enumerate(zip(ops, out)):
             parts = line.split(" | ")
-            if len(parts) != 8:
+            if len(parts) != 9:
                 return "other", "op %d %s: %s" % (i, op, line)
-            res, o_stamp, o_keys, o_items, o_deck, o_len, o_truth, o_unit = parts
+            res, o_stamp, o_keys, o_items, o_deck, o_len, o_truth, o_unit, o_ids = parts
             where = "op %d %s -> %s: " % (i, op[:3], res)
             k = op[0]
             err = res.startswith("ERR ")
@@ -735,7 +796,9 @@ class CHECK(core.Check):
                     F = collections.OrderedDict()
                     for kk, vv in op[1]:
                         F[kk] = vv
-                    stamp = now(); expect_res = "unit"; d11 = False
+                    stamp = now(); expect_res = "unit"; d11 = False; n_records += 1
+            elif k == "hold":
+                expect_res = "unit"
             elif k == "setTruth":
                 truth = op[1]; expect_res = "unit"
             elif k == "getTruth":
@@ -826,6 +889,10 @@ class CHECK(core.Check):
                     o_keys, o_items, penc(list(F.items())))
             if not d11 and o_len != "%d" % len(F):
                 return "other", where + "len() is %s with %d fields" % (o_len, len(F))
+            want_ids = "%d,0,%s" % (n_records, "-" if U is None else "0")
+            if o_ids != want_ids:
+                return "other", where + ("the share's sub-objects (data record, deck, unit record) are objects %s, "
+                                         "expected %s: a reference held by the caller no longer is the share's" % (o_ids, want_ids))
             if o_truth != venc(truth):
                 return "other", where + "truth is %s, expected %s" % (o_truth, venc(truth))
             want_unit = "-" if U is None else penc(list(U.items()))
